@@ -609,3 +609,10 @@ Theorem c15_every_frame_key_agrees :
 Proof. exact gen_every_frame_key_agrees. Qed.
 Theorem c15_swapped_key_refuted : key_ok [KMip; KSide; KFrame] = false /\ key_of [KMip; KSide; KFrame] 0 0 1 0 = [1; 0; 0].
 Proof. exact swapped_key_refuted. Qed.
+
+(** VTF.clear_mipmaps(after=a): the comparison of its loop is regenerated ([gen_clear_after]); exactly the levels with index
+    > a are erased (and regenerated from their parents by the chain theorem c15_save_writes_every_level), level a is kept *)
+Theorem c15_clear_after_exact : forall c, clear_after_ok c = true -> forall after m, clears c after m = true <-> after < m.
+Proof. exact clear_after_exact. Qed.
+Theorem c15_clear_after_ge_refuted : clear_after_ok CGe = false /\ clears CGe 0 0 = true.
+Proof. exact clear_after_ge_refuted. Qed.
